@@ -62,6 +62,33 @@ def gen_history(ctx: Ctx, rng) -> tuple[list, list]:
         prog.append(["new", cid, n])
         ports[cid] = n
         free[cid] = n
+    # directed prefixes: the situations in which an argument or a rejected call can be written to
+    if rng.random() < 0.5:
+        which = rng.choice(["span_over_ancilla", "copy_then_herald", "oversize_trailing_ancilla"])
+        ctx.count("directed:" + which)
+        if which == "span_over_ancilla":
+            # parent with an ancilla strictly inside the span of a later un-heralded, ungrouped addition
+            n = rng.randint(3, 5)
+            prog += [["new", "dp", n], ["new", "dh", 2], ["herald", "dh", rng.choice([0, 1]), rng.choice([0, 1]), rng.choice([0, 1])],
+                     cg.op_bs("dh", 0, 1, *rng.choice(PYTH)), ["add", "dp", "dh", rng.randint(1, n - 2), rng.random() < 0.5],
+                     ["new", "dc", n], cg.rand_prim_op(rng, "dc", n), cg.rand_prim_op(rng, "dc", n),
+                     ["add", "dp", "dc", 0, False], ["add", "dp", "dc", 0, rng.random() < 0.5]]
+            for cid, k in (("dp", n), ("dh", 2), ("dc", n)):
+                ids.append(cid); ports[cid] = k; free[cid] = k
+            free["dh"] = 1
+        elif which == "copy_then_herald":
+            n = rng.randint(2, 4)
+            prog += [["new", "dq", n], cg.rand_prim_op(rng, "dq", n), ["herald", "dq", 1, 0, rng.randrange(n)],
+                     ["copy", "dk", "dq"], ["herald", rng.choice(["dk", "dq"]), 0, n - 1, n - 1],
+                     cg.rand_prim_op(rng, "dk", n)]
+            for cid in ("dq", "dk"):
+                ids.append(cid); ports[cid] = n; free[cid] = max(0, n - 2)
+        else:
+            prog += [["new", "dp", 3], ["new", "dh", 2], ["herald", "dh", 0, 1, 1], ["add", "dp", "dh", 2, True],
+                     ["new", "dc", 3], ["herald", "dc", rng.choice([0, 1]), 0, 0], cg.op_bs("dc", 1, 2, *rng.choice(PYTH)),
+                     ["add", "dp", "dc", 2, rng.random() < 0.5], ["add", "dp", "dc", 1, True]]
+            for cid, k, f in (("dp", 3, 3), ("dh", 2, 1), ("dc", 3, 2)):
+                ids.append(cid); ports[cid] = k; free[cid] = f
     steps = rng.randint(5, ctx.n(22, 30))
     for _ in range(steps):
         r = rng.random()
